@@ -188,7 +188,9 @@ func (w *c13World) observe(k string, t int) (got, want string, pan string) {
 		defer j.Remove()
 		before := fsx.Snapshot(j.Root)
 		var err error
-		p := guardMaybeMassive(true, func() { err = gtree.MkdirFromRoot(root, gtree.WithTargetDir(j.Target), gtree.WithMassive(context.Background())) })
+		p := guardMaybeMassive(true, func() {
+			err = gtree.MkdirFromRoot(root, gtree.WithTargetDir(j.Target), gtree.WithMassive(context.Background()))
+		})
 		after := fsx.Snapshot(j.Root)
 		if hasInvalidName(m) {
 			return fmt.Sprintf("err!=nil:%v", err != nil), `err!=nil:true`, p
